@@ -73,7 +73,9 @@ PROPS = {
           'cases = (executor, key kinds, operator in {reshard, reshuffle, reduce, fold, cogroup, repartition}, producer shards 1..5, output shards, '
           'key set, rotation of the key list (vector offsets / producer of each key), duplication): exhaustive value range for uint8/int8/bool and '
           'uint16/int16 keys; boundary (0, +-0.0, +-Inf, denormals, empty/long strings, integer limits) and random values for 15 key types; '
-          '2- and 3-column prefixes; shard counts {1,2,3,4,7,16,17} (quick) / 1..17 (thorough); some runs on a testsystem. A WriterFunc after the '
+          '2- and 3-column prefixes; shard counts {1,2,3,4,7,16,17} (quick) / 1..17 (thorough); some runs on a testsystem; a narrowing family '
+          '(Reshuffle/Cogroup by a 2-column key, Prefixed(1), then Cogroup/Reshuffle/Fold with the same shard count, first-column values '
+          'repeating); Reshard to the shard count a slice already has (known finding); two Repartitions of one slice. A WriterFunc after the '
           'operator records (shard,row). Oracle: equal keys (Go ==) -> one shard within a run; (operator class, type, key, nshard) -> shard is the same '
           'in every run of the process (different producers, offsets, executors) and, by digest, in every separately started child process '
           '(GOMAXPROCS varied per child); Repartition rows sit in the shard the function returned; aggregations emit each key once. '
@@ -100,9 +102,9 @@ PROPS = {
           'increments counted independently by the recorder; (c) result chains (24 / 400): a base result feeds 1-3 further Funcs (over earlier results '
           'of the chain), Result.Scope() of every result is read before and after each step and must equal the increments of the runs whose tasks '
           'are in its graph, each counted once. Non-trivial: laws with >=1 merge/reset/gob combining two scopes; e2e run on both executors; chain '
-          'with non-zero counters in base and a derived run.',
+          'with non-zero counters in base and a derived run. Chain steps may discard the result they consume first (recomputation without failure).',
           variants={'quick': ['plain'], 'thorough': ['plain', 'race']}, nbatch=(8, 16),
-          must_observe=['law_op_merge', 'law_op_gob', 'law_op_reset', 'runs_with_nonzero_counters', 'increments_checked', 'chain_scope_reads', 'law_histories_read_end', 'law_histories_read_copy']),
+          must_observe=['law_op_merge', 'law_op_gob', 'law_op_reset', 'runs_with_nonzero_counters', 'increments_checked', 'chain_scope_reads', 'chain_discards_before_a_step', 'law_histories_read_end', 'law_histories_read_copy']),
  'C08': P('exploration',
           'cases = (program spec with random pragmas, machine combiners on/off, optionally a Result argument of an earlier invocation): each is '
           'compiled by the driver path, compiled again, and compiled from the gob-transported invocation with references substituted as '
@@ -117,7 +119,8 @@ PROPS = {
           nbatch=(4, 16), must_observe=['graphs_compiled', 'tasks_checked', 'cross_process_values_compared']),
  'C12': P('exploration',
           'cases = (executor, base program, history of operations over the growing set of results): scan (1-4 concurrent scanners, optionally '
-          'concurrent with the next operation), derive (a generated Func consuming one or two results through pipelined and redistributing '
+          'concurrent with the next operation), scanmid (a scanner reads K in {0,1,100,129,300} rows, the result is discarded, the scanner reads on: '
+          'all rows or an error, never short and clean), derive (a generated Func consuming one or two results through pipelined and redistributing '
           'operators), discard (optionally concurrent), kill a machine (testsystem). A fixed list runs every redistributing operator over a result '
           'argument before and after a discard, and six pairs of different redistributions of the same result inside one Func (two combiners, two '
           'widths, with and without combiner) joined by a Cogroup; seeded histories of 2..6 (quick) / 2..10 (thorough) operations follow, on local p=4 and a testsystem '
@@ -126,12 +129,13 @@ PROPS = {
           'of a discarded/lost result returns the reference rows or an error; nothing may fail on intact results; every operation returns. '
           'Non-trivial: a reuse after discard/kill happened, or >=2 concurrent scanners.',
           nbatch=(16, 16), timeout=(900, 3400),
-          must_observe=['derived_runs_ok', 'recomputations_after_discard_or_loss', 'scans_ok', 'concurrent_scan_groups']),
+          must_observe=['derived_runs_ok', 'recomputations_after_discard_or_loss', 'scans_ok', 'concurrent_scan_groups', 'discards_in_mid_scan']),
  'C06': P('fault_enumeration',
           'cases = (executor in {local p=1, local p=4, testsystem, testsystem+machine combiners}, call site in {readerfunc, scanreader open, '
           'writerfunc, map, filter, flatmap, fold, reduce combiner, repartition function, scan callback}, mode in {error, temporary error, panic, '
-          'out-of-range partition} as applicable to the site, persistent | one-shot, position in {first call, call 127/128/129, last call}). '
-          'thorough = the full product (~680 cases); quick = one position per (site, mode, persistence, executor) (~140). A failure-free dry run '
+          'out-of-range partition} as applicable to the site, persistent | one-shot, position in {first call, call 127/128/129, last call}, and for '
+          'the six producer-side sites what consumes the failing task\'s output: the result itself | a Reshuffle (several partitions, no combiner) | '
+          'Map+Reduce (through a combiner)). thorough = the full product; quick = a fixed sample of it (~230). A failure-free dry run '
           'on the same session fixes the reference rows and the number of calls, from which the failing call index is derived. Oracle: persistent '
           'failure => Run returns an error carrying the message (reader/writer/scan errors, every panic); one-shot temporary failure => success with '
           'reference rows; any success => reference rows (no partial result); calls <= 8x failure-free calls + 50; a trivial run on the same session '
@@ -210,7 +214,8 @@ PROPS = {
           'equal the description of what the driver passed. (c) unencodable arguments (chan, func, struct with only unexported fields, struct with a '
           'chan) passed through an interface parameter: Run must return an error within the watchdog with zero Worker.Run RPCs observed by the '
           'interposer. (d) FuncLocationsDiff over all pairs of location lists over a 3-letter alphabet up to length 4 (14641 pairs; thorough 5: '
-          '132496): nil iff equal, and the script (drop "- ", keep plain, insert "+ ") transforms the first list into the second; exhaustive. '
+          '132496): nil iff equal, and the script (drop "- ", keep plain, insert "+ ") transforms the first list into the second; exhaustive; unencodable values also on the lazy path (argument of an invocation that runs no '
+          'tasks and returns its Result argument, consumed by a later invocation); a `resubmitting lost task` line after the run started is a retry. '
           '(e) result graphs on fresh workers: every DAG of 3-4 (thorough 5) results in which each Func consumes two earlier results (40 / 616 '
           'shapes) is run on a testsystem of 1-proc machines; the last Func has 6 shards so that it runs on machines that have compiled none of the '
           'earlier invocations (fresh=scale), or every machine is killed before it (fresh=kill; quick: every 4th shape): it must succeed with the '
@@ -223,15 +228,17 @@ PROPS = {
           'kill at (RPC method in {Worker.Compile, Run, Stat, Read, FuncLocations}, k-th call of that method, before forwarding | after the reply was '
           'received and before it is handed back) of the machine addressed, for every ordinal up to a per-method bound taken from failure-free traces '
           '(thorough; quick: first/middle/last ordinal); held-reply kills: the complete reply of the k-th Worker.Run is taken off the wire, its '
-          'machine is killed, and the reply is delivered once the executor has logged the loss of that machine; a kill of a random machine after the k-th Worker.Run; seeded pairs of kills (12 / 500). Read '
+          'machine is killed, and the reply is delivered once the executor has logged the loss of that machine; mid-body kills: the reply of the k-th Worker.Read is cut in the middle of its body with its machine killed (shuffle reads and the final '
+          'scan); a kill of a random machine after the k-th Worker.Run; seeded pairs of kills (12 / 500). Read '
           'ordinals beyond those of the run hit the final scan. Every case runs in a fresh session on a testsystem (2 procs per machine, keepalive '
           '50/100 ms, fast bounded read-retry policy) with machine combiners off; kills are performed by an RPC interposer around the testsystem\'s '
           'HTTP client. Oracle: Run+scan succeed with exactly the reference rows, or an error is reported; after a single kill an error from Run must '
           'be the documented give-up, and after a held-reply kill (the loss was recorded before the completion was learnt of, replacements available) '
-          'any error is a violation; a run that neither returns within 150 s nor shows RPC activity for 100 s is a hang (else inconclusive). '
+          'any error is a violation; machine losses the monitor did not cause (the executor logs `lost machine` for a machine that was not killed: keepalive '
+          'timeouts on a starved host) make the run an ordinary loss scenario (error acceptable, wrong rows not); a run that neither returns within 150 s nor shows RPC activity for 100 s is a hang (else inconclusive). '
           'Non-trivial: a machine was actually killed.',
           nbatch=(16, 16), timeout=(1200, 3400),
-          must_observe=['machines_killed', 'recoveries', 'runs_correct', 'replies_delivered_after_their_machine_was_seen_stopped']),
+          must_observe=['machines_killed', 'recoveries', 'runs_correct', 'replies_delivered_after_their_machine_was_seen_stopped', 'read_replies_cut_mid_body']),
 }
 
 META = {
@@ -347,7 +354,7 @@ META = {
  'C02': dict(
     text='Fault enumeration over RPC boundaries: an interposer kills the addressed (or a random) machine at chosen call ordinals of real runs; '
          'outcome and rows are compared with a failure-free reference.',
-    note='Mid-stream kills inside a Worker.Read body are not injected (before/after the call are). Keepalive timing inside bigmachine decides whether '
+    note='Keepalive timing inside bigmachine decides whether '
          'a loss is noticed before the five fast resubmissions are used up: give-up errors are counted, not flagged. Machine-combiner sessions are '
          'excluded by the property.',
     technique='crash-point fault injection at the RPC boundary with a reference-rows oracle and a bounded-progress (stall) rule'),
